@@ -58,6 +58,15 @@ theorem hier_file_object_form_sound (cfg : Cfg) (hs : cfg.validator = .soft) (R 
   simp only [decodeFileObj, facts02_file, if_true] at h
   exact hier_decode_sound cfg hs R hR (fileValueTy o) hwf d v l h
 
+/-- **Double / Decimal kind-soundness** (outside the shared universe, so stated on the measured acceptance table): for plain and
+    customized Double and Decimal, as argument and as nested member, in YAML, MessagePack and MessagePack-RPC, no native
+    document node that is not a number gets through soft validation, and none makes an exception escape. -/
+theorem facts02_number_kinds : facts02.nonNumberForNumber = [] := by decide
+
+/-- a class with `validate_freq=False` loses only the occurrence check of its own members (`Cfg.noFreq`, `finish`): kinds and
+    facets are still validated below it — `hier_decode_sound` holds for every `cfg`, whatever `cfg.noFreq` is -/
+theorem facts02_nofreq_kinds : facts02.noFreqKeepsValidation = true := by decide
+
 /-- a class selected by a wrapper key is checked to be a subclass of the declared class, whatever list it was found in
     (witness: `X` whose `Attributes` derives from `D.Attributes` and a wrapper key naming a subclass of `D`) -/
 theorem facts02_retag : facts02.retagSubclassChecked = true := by decide
@@ -83,7 +92,7 @@ def exSub : ClassDef := ⟨"Sub".toList, "tns".toList, some "Base".toList,
 def exOther : ClassDef := ⟨"Other".toList, "tns".toList, none, [("x".toList, .prim .boolean {})]⟩
 def exReg : Registry := [exBase, exSub, exOther]
 def exBaseTy : Ty := .obj "Base".toList "tns".toList none exBase.fields {}
-def exCfg : Cfg := ⟨.json, .soft, false, .dict, false, false, true⟩
+def exCfg : Cfg := ⟨.json, .soft, false, .dict, false, false, true, [], []⟩
 
 example : (decode facts08 facts02 exCfg exReg exBaseTy
     (.map [(.str "Sub".toList, .map [(.str "a".toList, .int 5), (.str "b".toList, .bool true)])])).okClass
@@ -93,9 +102,9 @@ example : (decode facts08 facts02 exCfg exReg exBaseTy
 example : wfTy exBaseTy = true := by decide
 
 /-- `{"name": 5}` for a File under soft validation is a fault; `{"name": "a.txt"}` builds a `File.Value` -/
-example : (decodeFileObj facts08 facts02 ⟨.json, .soft, true, .dict, false, false, true⟩ [] {}
+example : (decodeFileObj facts08 facts02 ⟨.json, .soft, true, .dict, false, false, true, [], []⟩ [] {}
     (.map [(.str "name".toList, .int 5)])).isFault = true := by decide +kernel
-example : (decodeFileObj facts08 facts02 ⟨.json, .soft, true, .dict, false, false, true⟩ [] {}
+example : (decodeFileObj facts08 facts02 ⟨.json, .soft, true, .dict, false, false, true, [], []⟩ [] {}
     (.map [(.str "name".toList, .str "a.txt".toList)])).okClass = some fileValueName := by decide +kernel
 
 end SpyneModel.Props.C04hier
